@@ -1799,6 +1799,7 @@ impl FwdOracle {
 		let mut allowance: u128 = 0;
 		let mut detail = vec![];
 		let mut all_open = true;
+		let mut lost_own_commitment = false;
 		let wallet_spk = lightning::util::wallet_utils::WalletSourceSync::get_change_script(&*sim.w.nodes[B].wallet_source).ok();
 		let limit = match spec.dust_exposure_fixed_msat {
 			Some(x) => x,
@@ -1896,6 +1897,11 @@ impl FwdOracle {
 						allowance += rec.dust.iter().map(|h| h.amt_msat as u128).sum::<u128>();
 					}
 					let mine = if rec.broadcaster == sb { rec.to_broadcaster_sat } else { rec.to_countersignatory_sat };
+					if mine > 0 && reported + spendable == 0 && rec.broadcaster == sb && self.b_broadcast.contains(&t) && self.stats.restarts_b > 0 {
+						// discriminating fact for the key: B's own commitment confirmed, B was restarted, and its monitor
+						// reports nothing for the channel
+						lost_own_commitment = true;
+					}
 					if mine == 0 {
 						// B's own balance was below the dust limit and has no output
 						allowance += 1000 * c.open.common_fields.dust_limit_satoshis.max(c.accept.common_fields.dust_limit_satoshis) as u128;
@@ -1923,7 +1929,13 @@ impl FwdOracle {
 				"ledger",
 				format!("B's total over its channels fell from {} msat to {} msat (allowance for trimmed HTLCs / satoshi rounding on closed channels: {} msat). {}", start, end, allowance, detail.join("; ")),
 			)
-			.with_key(if all_open { "ledger/offchain" } else { "ledger/onchain" }));
+			.with_key(if all_open {
+				"ledger/offchain"
+			} else if lost_own_commitment {
+				"ledger/onchain/own-commitment-unknown-to-monitor-after-restart"
+			} else {
+				"ledger/onchain"
+			}));
 		}
 		if all_open {
 			// the monitors' own reports agree: with no HTLC pending and an unchanged feerate the reported
